@@ -338,6 +338,9 @@ func runC20(c *h.Ctx, idx int, events bool) {
 		sel2 = tree.selected(inc2, exc2, false)
 	}
 	slowCtx := events && r.Chance(40)
+	// the task gives EventName / EventPath values of its own (for the start-up run, which has no event): an event
+	// still describes itself
+	envDefault := events && r.Chance(30)
 	w := gen.OM{{K: "watch", V: inc}, {K: "task", V: "t"}}
 	if len(exc) > 0 {
 		w.Set("exclude", exc)
@@ -349,6 +352,9 @@ func runC20(c *h.Ctx, idx int, events bool) {
 		t := gen.OM{{K: "command", V: []interface{}{fmt.Sprintf("printf '%s name=[%%s] path=[%%s]\\n' \"$EventName\" \"$EventPath\" >> '%s'", tag, runlog)}}}
 		if slowCtx {
 			t.Set("context", "slow")
+		}
+		if envDefault {
+			t.Set("env", gen.OM{{K: "EventName", V: "at-startup"}, {K: "EventPath", V: "nowhere"}})
 		}
 		return t
 	}
@@ -375,6 +381,9 @@ func runC20(c *h.Ctx, idx int, events bool) {
 	}
 	if slowCtx {
 		cas["context_before_hook"] = "sleep 1.5"
+	}
+	if envDefault {
+		cas["task_env_defines_EventName_and_EventPath"] = true
 	}
 	sel1 := sel
 	if two {
@@ -490,6 +499,9 @@ func runC20(c *h.Ctx, idx int, events bool) {
 		wantInit := "RUN name=[] path=[]"
 		if two {
 			wantInit = "RUN name=[] path=[] RUN2 name=[] path=[]"
+		}
+		if envDefault {
+			wantInit = strings.ReplaceAll(wantInit, "name=[] path=[]", "name=[at-startup] path=[nowhere]")
 		}
 		if strings.Join(init, " ") != wantInit {
 			c.Violate("events/initial-run", fmt.Sprintf("expected exactly one initial run (empty event) per watcher, saw %v", init), cas)
